@@ -149,6 +149,32 @@ def newTerm (tl tc : Nat) (oracle : Nat) (ws : Bool) (pen : Option Pen) (seed : 
     oracle := fun k => (oracle >>> (k % 31)) % 2 == 1
     viaWriteStr := ws }
 
+/-! ### Execution speed on wide buffers
+
+  `hlineAt` draws one cell after the other, each through `make_span`; on the function representation of a row every
+  cell adds a layer of closures and a 300-cell line takes minutes.  Here the grid is re-tabulated every few cells
+  (`RB.compact` is the identity on the grid); the calls of `linecell` are the same as in `Tickit.RB.hlineAt`. -/
+
+def lineLoopC (cellAt : Int → Int × Int) (bits : Nat) (rb : RB) (from_ : Int) : Nat → RB
+  | 0 => rb
+  | n + 1 =>
+    let rb' := linecell rb (cellAt from_).1 (cellAt from_).2 bits
+    lineLoopC cellAt bits (if n % 8 = 0 then rb'.compact else rb') (from_ + 1) n
+
+open Tickit.Gen.RBWidth in
+def hlineAtC (rb : RB) (line startcol endcol : Int) (style caps : Nat) : RB :=
+  let east := style <<< c_EAST_SHIFT
+  let west := style <<< c_WEST_SHIFT
+  let rb := linecell rb line startcol (east ||| (if caps &&& c_TICKIT_LINECAP_START ≠ 0 then west else 0))
+  let rb := lineLoopC (fun col => (line, col)) (east ||| west) rb (startcol + 1) (endcol - 1 - startcol).toNat
+  linecell rb line endcol ((if caps &&& c_TICKIT_LINECAP_END ≠ 0 then east else 0) ||| west)
+
+/-- `RB.step`, with the re-tabulating `hlineAt` on buffers wider than 40 columns. -/
+def stepC (rb : RB) (o : Op) : RB :=
+  match o with
+  | .hlineAt l c1 c2 st caps => if rb.cols > 40 then hlineAtC rb l c1 c2 st caps else RB.step rb o
+  | _ => RB.step rb o
+
 def showOutcome : Outcome → String
   | .ok => "ok" | .aborted => "ABORT" | .fuelOut => "OUT-OF-FUEL"
 
@@ -196,7 +222,7 @@ def step (st : St) (ts : List String) (impl : String) : St × String × String :
         match parseOp op args with
         | none => (st, "bad-op", "")
         | some o =>
-          let rb' := (RB.step rb o).compact
+          let rb' := (stepC rb o).compact
           ({ st with rb := some rb' }, modelRet rb o ++ " " ++ showRB rb', "")
   | [] => (st, "bad-op", "")
 
